@@ -53,6 +53,7 @@ def silent(dur=1.0, inevent=None):
 
 def is_rest(inevent):
     return (inevent.get('type') == 'rest' or
+            isinstance(inevent, RestEvent) or
             any(isinstance(value, Rest) for value in inevent.values()))
 
 
@@ -656,6 +657,15 @@ class NoteEvent(EventType, partial_events=(
                 ['/n_set', node_id, 'gate', 0])
 
         self['is_playing'] = True
+
+
+class RestEvent(EventType, partial_events=(
+        PitchKeys, AmplitudeKeys, DurationKeys, ServerKeys)):
+    type = 'rest'
+    is_playing = False
+
+    def play(self):
+        pass  # A rest sends nothing, only its delta is used.
 
 
 class MidiEvent(EventType, partial_events=(
